@@ -268,7 +268,9 @@ func runC14(c *core.Ctx) {
 		e := schemas[jobs[i].schema]
 		return e.s, jobs[i].input, jobs[i].serial, e.format, e.text
 	}, ext)
-	c14ColdStart(c, r, ext)
+	for round := 0; round < 4; round++ {
+		c14ColdStart(c, r, ext) // each round: a new schema with strings no cache has seen, first used by all goroutines at once
+	}
 	G := []int{2, 8, 32}[r.Intn(3)]
 	if c.Tier == core.Thorough && r.Chance(1, 4) {
 		G = 128
